@@ -294,6 +294,7 @@ def isolation(chk, rule: str, rels=None):
                             f"`{name} = {src(val)}` is one class-level object and `{src(n)[:60]}` mutates it in place: every instance of {c.name} shares it, "
                             f"so what one node / client / map / dictionary does shows up in all the others")
     chk.ok(rule, f"{'package' if rels is None else ', '.join(sorted(rels))} | no class-level mutable state mutated in place", "canopen/", f"scanned {n_cls} classes")
+    logging_inert(chk, rule, rels)
     t = ast.parse("class S:\n    _buffer = bytearray()\n    def f(self, d):\n        b = self._buffer\n        b[:] = d\n")
     chk.fixture(rule, "class-level bytearray mutated through an alias", _is_mutable_value(t.body[0].body[0].value) and bool(_mutations_of(t.body[0].body[1], "self._buffer")))
 
@@ -417,3 +418,46 @@ def fill_map_complete(chk, rule: str):
     chk.check(len(zero) == 1 and folder.try_fold(zero[0].value, sc, None) == 0, rule, f"{PB}:PdoMap._fill_map | dummy entries have length 0", fm.loc(), f"{[src(z) for z in zero]}")
     mk = [c for c in ast.walk(fm.node) if isinstance(c, ast.Call) and (dotted(c.func) or "").endswith("ODVariable")]
     chk.check(len(mk) == 1 and [folder.try_fold(a, sc, None) for a in mk[0].args[1:3]] == [0, 0], rule, f"{PB}:PdoMap._fill_map | dummy object 0x0000:00", fm.loc(), f"{[src(c) for c in mk]}")
+
+
+_TYPED_SPEC = set("dxXobeEfFgGn%c")
+
+
+def logging_inert(chk, rule: str, rels=None):
+    """The canonical form drops logging statements because no property speaks about log output.  That is only sound while a
+    logging statement cannot change behaviour: with lazy %-style arguments a formatting error is swallowed by the logging
+    package, but an f-string / str.format / eager % with a typed presentation (`{value:d}`, `{x:04X}`) is evaluated before
+    the call and raises TypeError/ValueError into the data path for a value of another type (a float where `:d` is used)."""
+    repo, folder = ctx(chk)
+    n_calls = 0
+    for m in repo.modules.values():
+        if rels is not None and m.rel not in rels:
+            continue
+        try:
+            raw = ast.parse(m.src)
+        except SyntaxError:
+            continue
+        for c in ast.walk(raw):
+            if not (isinstance(c, ast.Call) and isinstance(c.func, ast.Attribute) and isinstance(c.func.value, ast.Name) and c.func.value.id in ("logger", "logging")
+                    and c.func.attr in ("debug", "info", "warning", "warn", "error", "exception", "critical", "log")):
+                continue
+            n_calls += 1
+            for a in list(c.args) + [k.value for k in c.keywords]:
+                for x in ast.walk(a):
+                    bad = None
+                    if isinstance(x, ast.FormattedValue) and x.format_spec is not None:
+                        spec = "".join(p.value for p in x.format_spec.values if isinstance(p, ast.Constant) and isinstance(p.value, str))
+                        if spec and spec[-1] in _TYPED_SPEC and not isinstance(x.value, ast.Constant):
+                            bad = f"f-string field `{{{ast.unparse(x.value)}:{spec}}}`"
+                    elif isinstance(x, ast.BinOp) and isinstance(x.op, ast.Mod) and isinstance(x.left, ast.Constant) and isinstance(x.left.value, str) \
+                            and any(t in x.left.value for t in ("%d", "%x", "%X", "%0", "%f", "%e", "%g", "%c")):
+                        bad = f"eager `{ast.unparse(x)[:40]}`"
+                    elif isinstance(x, ast.Call) and isinstance(x.func, ast.Attribute) and x.func.attr == "format" and isinstance(x.func.value, ast.Constant) \
+                            and isinstance(x.func.value.value, str) and any(f":{t}}}" in x.func.value.value or f"{t}}}" in x.func.value.value.split(":")[-1] for t in "dxXf"):
+                        bad = f"eager `{ast.unparse(x)[:40]}`"
+                    if bad:
+                        chk.bad(rule, f"{m.rel}:{c.lineno} | logging statement cannot raise", f"{m.rel}:{c.lineno}",
+                                f"{bad} is formatted eagerly inside a {c.func.attr}() call: a value of another type (float, None) raises here, in the middle of the operation, "
+                                f"where the lazy `%`-style arguments it replaces were harmless")
+                        break
+    chk.ok(rule, f"{'package' if rels is None else ', '.join(sorted(rels))} | logging statements are inert", "canopen/", f"{n_calls} logging calls scanned")
